@@ -158,7 +158,7 @@ func VerifIntrospect() {
 	if inDefault {
 		xdef = "7"
 	}
-	in["inputFields"] = []interface{}{v15InputValue("x", "", "Int", xdef), v15InputValue("y", "N", "String", nil), v15InputValue("m", "", "E", "A")}
+	in["inputFields"] = []interface{}{v15InputValue("x", "", "Int", xdef), v15InputValue("y", "N", "String", `"d"`), v15InputValue("m", "", "E", "A")}
 	q := v15Type("OBJECT", "Query")
 	q["fields"] = []interface{}{
 		v15Field("o", "", "O", []interface{}{v15InputValue("in", "", "IN", nil)}, false, ""),
@@ -254,6 +254,10 @@ func VerifIntrospect() {
 	verifAssert(E != nil && E.Kind == ast.Enum && len(E.EnumValues) == 2, "enum values are reproduced")
 	IN := got.Types["IN"]
 	verifAssert(IN != nil && IN.Kind == ast.InputObject && len(IN.Fields) == 3, "input fields are reproduced")
+	if IN != nil && IN.Fields.ForName("y") != nil {
+		ydef := IN.Fields.ForName("y").DefaultValue
+		verifAssert(ydef != nil && ydef.String() == `"d"`, "a non-null input field keeps its default")
+	}
 	if IN != nil && IN.Fields.ForName("m") != nil {
 		mdef := IN.Fields.ForName("m").DefaultValue
 		verifAssert(mdef != nil && mdef.Kind == ast.EnumValue && mdef.String() == "A", "a default of an enum-typed input field is an enum value")
